@@ -484,6 +484,7 @@ def _exec_mvn(case, mon):
         m = _mk_mvn(M, dim, case["eps"])
         mon.observe("histories", "%d|%s" % (len(case["atoms"]), h["chunks"]))
         seen = []
+        held = None
         for j, ids in enumerate(h["chunks"]):
             mon.lib("accumulate", m.accumulate, chunk_t(ids))
             seen.append(chunk_np(ids))
@@ -496,6 +497,7 @@ def _exec_mvn(case, mon):
                     mon.cls("midway_store")
                     mon.lib("store", m.store, False, bessel)
                     _check_stats(mon, m.mean, m.std, so_far, bessel, "midway", history=hi)
+                    held = (m.mean, m.std, so_far)  # the caller keeps what this round gave it (no clone)
         if n < need:
             # the estimator is undefined: the documentation promises a RuntimeError
             mon.lib("store", m.store, case["delete_stats"], bessel, documented=(RuntimeError,))
@@ -505,6 +507,11 @@ def _exec_mvn(case, mon):
         mon.check(m.mean is not None and m.std is not None, "stat-stored", history=hi)
         got = _check_stats(mon, m.mean, m.std, obs, bessel, "final", history=hi, chunks=h["chunks"])
         stored.append(got)
+        if held is not None:
+            # ... and still has them after the module went on accumulating and stored again
+            _check_stats(mon, held[0], held[1], held[2], bessel, "midway (looked at again after the final store)",
+                         history=hi)
+            mon.stat("held_statistics_rechecked")
         if first is None:
             first = LY.travelled(m, n, X, dim)
     # every history agrees with every other one (besides agreeing with the oracle)
